@@ -48,7 +48,7 @@ pub fn c01() -> HistProp {
     HistProp {
         prop: "C01",
         cfg,
-        cases_quick: 400,
+        cases_quick: 3000,
         cases_thorough: 40_000,
         rule: "proptest histories (<=60 symbolic ops over 2..5 keys; set/add/replace/get/getk/append/prepend/incr/decr/delete/flush/advance, loud and quiet) interpreted at wire level against the Spec, with getk probes of the other keys after every command; both store stacks (MemoryStore alone / under RandomPolicy with an unreachable limit). non-trivial = at least one hit on key A verified after an intervening successful mutation of another key B, and the history stores an empty, a non-UTF-8 or a limit-sized value. distinct = distinct 64-bit hash of the generated case",
         nontrivial: |_c, r| r.f("hit_after_other_mut") > 0 && (r.f("val_empty") + r.f("val_binary") + r.f("val_limit") > 0),
@@ -71,7 +71,7 @@ pub fn c02() -> HistProp {
     HistProp {
         prop: "C02",
         cfg,
-        cases_quick: 500,
+        cases_quick: 4000,
         cases_thorough: 50_000,
         rule: "proptest histories in which every mutation draws its CAS from {0, current, a stale token previously issued for the key, current+1, arbitrary u64, u64::MAX}, plus the explicit client scenario read(v,c) -> k other successful mutations -> mutate with c; judged by the Spec's cas rule, uniqueness within a lifetime, and acknowledged-cas = retrieved-cas. non-trivial = a non-zero non-matching CAS was applied to a live item that had already been mutated successfully by both the conditional and the unconditional path",
         nontrivial: |_c, r| r.stat.stale_after_two_paths > 0,
@@ -97,7 +97,7 @@ pub fn c05() -> HistProp {
     HistProp {
         prop: "C05",
         cfg,
-        cases_quick: 500,
+        cases_quick: 4000,
         cases_thorough: 50_000,
         rule: "proptest histories of stores with TTL in {0,1,2,..,30 days} issued at arbitrary clock values, clock advances to expiry-1/expiry/expiry+1 and far beyond, every presence-dependent command on live, just-expired and long-expired items, immediate and delayed flushes; judged by the Spec's alive_until / dead_from bounds. non-trivial = an item stored at clock != 0 was probed within one second of its expiry instant",
         nontrivial: |_c, r| r.stat.near_expiry_probe > 0,
@@ -122,7 +122,7 @@ pub fn c06() -> HistProp {
     HistProp {
         prop: "C06",
         cfg,
-        cases_quick: 500,
+        cases_quick: 4000,
         cases_thorough: 50_000,
         rule: "proptest histories hitting absent, present, expired, deleted-and-recreated and flushed keys with add/replace/append/prepend (loud and quiet), operands empty, binary and sized so that the result reaches the item size limit; judged by the Spec, with a probe of the key after every command. non-trivial = at least one rejected and one accepted conditional command, and an empty or non-UTF-8 operand",
         nontrivial: |_c, r| {
@@ -150,7 +150,7 @@ pub fn c07() -> HistProp {
     HistProp {
         prop: "C07",
         cfg,
-        cases_quick: 500,
+        cases_quick: 4000,
         cases_thorough: 60_000,
         rule: "proptest histories of incr/decr/get/set on keys holding values from the numeric family (0, 1, 2^63, 2^64-2, 2^64-1, leading zeros, +n, -n, spaces, empty, 2^64, 21 digits, non-UTF-8), deltas/initials at the extremes and at the exact wrap and zero points, expiration 0/n/0xffffffff, any CAS selector; judged by the Spec (exact result, 8-byte body, stored text = returned number, flags kept). non-trivial = a counter command whose exact result is 0 or 2^64-1 or that hit the 0xffffffff no-create rule, or one applied to a non-numeric value",
         nontrivial: |_c, r| r.stat.counter_edge > 0 || r.stat.counter_nonnum > 0,
@@ -176,7 +176,7 @@ pub fn c08() -> HistProp {
     HistProp {
         prop: "C08",
         cfg,
-        cases_quick: 400,
+        cases_quick: 3000,
         cases_thorough: 40_000,
         rule: "proptest histories over 2..6 keys mixing stores, deletes (cas 0 / matching / stale) on present and absent keys, immediate and delayed flushes (delay 1..10^6) at arbitrary clock values, advances to the flush deadline -1/0/+1 and later re-stores; judged by the Spec with probes of all keys after every command. non-trivial = a flush followed by a verified hit (a key stored after the flush), or a successful delete while at least two other keys are stored",
         nontrivial: |_c, r| (r.f("flush0") + r.f("flushn") > 0 && r.stat.hits_verified > 0) || r.f("delete_among_3") > 0,
@@ -197,7 +197,7 @@ pub fn c11() -> HistProp {
     HistProp {
         prop: "C11",
         cfg,
-        cases_quick: 400,
+        cases_quick: 3000,
         cases_thorough: 30_000,
         rule: "every response produced by proptest histories over all opcodes (loud and quiet, all outcomes the store can be driven into) is re-parsed by an independent parser and checked for magic, echoed opcode and opaque, data type 0, status in the protocol table, and header lengths that describe exactly the extras/key/value bytes that follow (4 flag bytes on hits, key echo only for getk/getkq, 8-byte counter body, message text on errors). non-trivial = the history produced responses of at least 4 distinct (opcode,status) kinds including one with a body",
         nontrivial: |_c, r| r.resp_hist.len() >= 4,
